@@ -154,6 +154,12 @@ var c03Spec = fw.Spec[c03Case]{
 		return c03RunSched(c, st)
 	},
 	Batch: 1,
+	BudgetSec: func(tier string) int {
+		if tier == "thorough" {
+			return 3600
+		}
+		return 150
+	},
 }
 
 func init() {
